@@ -223,3 +223,45 @@ func verifC04Vacuity() {
 	_ = r.Match(q)
 	verifAssert(false, "vacuity")
 }
+
+// verifDocTargetIsURL: the documented choice of the match target for hostname
+// requests: patterns that speak about the scheme or the start of the address
+// ("||", "http://", "https://", "://") and "/hostname." path patterns are matched
+// against the URL "http://<hostname>", everything else against the bare hostname.
+func verifDocTargetIsURL(p string) bool {
+	if strings.HasPrefix(p, "||") || strings.HasPrefix(p, "http://") || strings.HasPrefix(p, "https://") || strings.HasPrefix(p, "://") {
+		return true
+	}
+	if len(p) > 3 && p[0] == '/' && p[len(p)-1] == '.' {
+		for i := 1; i < len(p)-1; i++ {
+			c := p[i]
+			if !((c >= 'a' && c <= 'z') || (c >= 'A' && c <= 'Z') || (c >= '0' && c <= '9') || c == '.' || c == '-') {
+				return false
+			}
+		}
+		return true
+	}
+	return false
+}
+
+// verifC04Target: for hostname requests the pattern is applied to the documented target.
+// Rules [from, from+count) of the driver's mask list; hostname of L symbolic bytes.
+func verifC04Target(from, count, L int) {
+	for i := from; i < from+count; i++ {
+		r := verifNativeRule(i)
+		mc := r.enabledOptions&OptionMatchCase != 0
+		h := verifString(vn("h", i, ""), L, verifHostChars)
+		req := &Request{IsHostnameRequest: true, Hostname: h, URL: "http://" + h, RequestType: TypeDocument}
+		req.URLLowerCase = strings.ToLower(req.URL)
+		got := r.matchPattern(req)
+		target := h
+		if verifDocTargetIsURL(r.pattern) {
+			target = req.URL
+			verifReach("c04.target.url")
+		} else {
+			verifReach("c04.target.hostname")
+		}
+		want := verifRefMask(r.pattern, mc, target) != 0
+		verifAssert(got == want, "c04: for a hostname request the pattern is applied to the documented target (URL or bare hostname)")
+	}
+}
